@@ -400,7 +400,7 @@ impl Part for FaultPart {
             .boxed()
     }
     fn cases(&self, tier: Tier) -> u64 {
-        tier.pick(1_500, 6_000)
+        tier.pick(4_000, 6_000)
     }
     fn exec(&self, c: &C03Case, out: &mut CaseOut) -> Result<(), Fail> {
         exec(c, out)
